@@ -242,6 +242,7 @@ def run(ctx):
             n = max(nums[0], 2)
             nums = [n, n]
             m = rand_payoffs(rng, (n, n), kind)
+            m_snapshot = m.copy()
             g = NormalFormGame(m)
             init = "Some (nfg_symmetric %s)" % arrlit(m)
             ref = {a: [frac(m[a[0], a[1]]), frac(m[a[1], a[0]])] for a in np.ndindex(n, n)}
@@ -259,7 +260,6 @@ def run(ctx):
         oracle_views(ctx, g, ref, {"init": init_kind, "nums": nums, "ops": []}, Fraction(0))
         ops_lit, ops_desc = [], []
         nops = rng.randrange(0, 5)
-        aliased = init_kind == "symmetric"   # both players are Player(data) over ONE ndarray: g[a]=v would also write the mirrored profile
         cur_nums = list(g.nums_actions)
         for oi in range(nops):
             choices = ["set", "set", "del", "gam", "players", "profile"]
@@ -268,10 +268,8 @@ def run(ctx):
             if rng.random() < 0.06:
                 choices = ["baddel"]
             o = rng.choice(choices)
-            if aliased and o in ("set", "players"):
-                o = "profile"
-            if o in ("profile", "gam", "del", "poly"):
-                aliased = False
+            if init_kind == "symmetric" and oi == 0:
+                o = "set"          # __setitem__ directly on a game built from a square matrix
             g2 = None
             if o == "set":
                 a = tuple(rng.randrange(n) for n in cur_nums)
@@ -284,6 +282,12 @@ def run(ctx):
                         g[a] = v
                 f()
                 g2 = g
+                if init_kind == "symmetric":
+                    changed = [list(b) for b in np.ndindex(*cur_nums) if b != a and [frac(x) for x in np.asarray(g[b]).tolist()] != ref[b]]
+                    if changed or not np.array_equal(m, m_snapshot):
+                        ctx.fail("setitem_symmetric_aliasing", "g[a] = v on a game built from a square matrix changed another profile or the caller's matrix",
+                                 {"constructor": "symmetric_matrix", "matrix": m_snapshot, "profile": list(a), "value": v},
+                                 {"other_profiles_changed": changed[:4], "caller_matrix_changed": not np.array_equal(m, m_snapshot)}, "only profile a changes")
                 ops_lit.append("OSet %s %s" % (natlist(a), qlist([frac(x) for x in v])))
                 ops_desc.append(["set", list(a), v])
                 ref[a] = [frac(x) for x in v]
